@@ -28,15 +28,20 @@ def c14(work, tier, seed, replay):
     mcs = []
     for cfg in ("MC_Server", "MC_Server6"):
         mcs.append(common.require_mc(common.tlc(work, "MC_Server", cfg=cfg + ("" if quick else "_thorough"), workers=8, timeout=1800), cfg))
+    # two goroutines running Serve on one server
+    for cfg in (("MC_Server2",) if quick else ("MC_Server2", "MC_Server2_6")):
+        mcs.append(common.require_mc(common.tlc(work, "MC_Server", cfg=cfg, workers=8, timeout=1800), cfg))
     nonvac = []
-    for cfg, inv in (("MC_ServerBadStop", "ReturnOnlyOnError"), ("MC_ServerBadBuf", "OwnMessage")):
+    for cfg, inv in (("MC_ServerBadStop", "ReturnOnlyOnError"), ("MC_ServerBadBuf", "OwnMessage"), ("MC_ServerBadShared", "OwnMessage")):
         r = common.tlc(work, "MC_Server", cfg=cfg, workers=4, timeout=600)
         if inv not in r["violated"]:
             raise Infra("%s: the wrong design must violate %s (non-vacuity)" % (cfg, inv))
         nonvac.append(dict(cfg=cfg, violated=r["violated"]))
     sim = common.tlc(work, "MC_Server", cfg="MC_ServerSim", workers=1, timeout=900,
                      extra=["-simulate", "num=%d" % (200 if quick else 3000), "-depth", "90", "-seed", str(seed)])
-    cases = sorted(set(json.loads(c)[5:] for c in sim["cases"]))
+    sim2 = common.tlc(work, "MC_Server", cfg="MC_ServerSim2", workers=1, timeout=900,
+                      extra=["-simulate", "num=%d" % (100 if quick else 1500), "-depth", "90", "-seed", str(seed)])
+    cases = sorted(set(json.loads(c)[5:] for c in sim["cases"] + sim2["cases"]))
     if len(cases) < 20:
         raise Infra("TLC produced only %d behaviours\n%s" % (len(cases), sim["out"][-1500:]))
     sf = work.path("server.schedules")
